@@ -163,4 +163,23 @@ def Map.entryFused (m : Map) (k kid : Nat) (raw inserting : Bool) : Map Ã— Out Ã
   let present := (m.find k).isSome
   (m, { cost := { hashes := 1, dropped := if raw then [] else [kid] } }, if inserting then !present else present)
 
+/-- A call under an `Eq` implementation that panics (`fired`: hashbrown's probing reached the fused comparison â€”
+    how many comparisons a lookup makes is its private matter, so this is an oracle).  `Eq` is only ever called from
+    `find`, and in `insert` / `remove` / `get_mut` / `entry(..).or_insert(..)` / the lookups `find` precedes every
+    mutation: when the comparison panics nothing has been touched, and the unwinding drops the arguments the caller
+    passed by value.  `kind`: 0 `insert(k, v)`, 1 `remove(&k)`, 2 `get(&k)`, 3 `entry(k).or_insert(v)`,
+    4 `get_mut(&k)` (then `+= 1`). -/
+def Map.eqFused (c : Cfg) (kind : Nat) (m : Map) (e : Entry) (fired : Bool) (o : Orc) :
+    Except Fault (Map Ã— Out Ã— Bool) :=
+  if fired then
+    let args : List Nat := if kind = 0 âˆ¨ kind = 3 then e.ids else []
+    .ok (m, { cost := { hashes := 1, dropped := args } }, true)
+  else
+    match kind with
+    | 0 => (Map.insert c m e o).map (fun (m', out) => (m', out, false))
+    | 1 => (Map.removeEntry m e.k o).map (fun (m', out) => (m', out, false))
+    | 3 => (Map.entryChain c false 1 m e.k e.kid [.orInsert false 0 e.v e.vid 0] o).map (fun (m', out) => (m', out, false))
+    | 4 => let (m', out) := Map.getMut m e.k 1; .ok (m', out, false)
+    | _ => .ok (m, Map.get m e.k, false)
+
 end Griddle
